@@ -367,7 +367,7 @@ theorem validatePath_ok {pb dep : Bool} {all : List PathV} {p : PathV} {r : Path
 /-! ### the loop over the paths -/
 
 /-- the fields of a path that no validation step changes and that the cross-path checks read -/
-def key (p : PathV) : Str × Str × Nat × Bool × Bool := (p.name, p.source, p.camID, p.secondary, p.depc)
+def key (p : PathV) : Str × Str × Nat × Bool × Bool × Nat := (p.name, p.source, p.camID, p.secondary, p.depc, p.udpRange)
 
 /-- a path without the fields written by ANOTHER path's validation (`primary.RPICameraSecondary… = …`) -/
 def core (p : PathV) : PathV :=
@@ -407,7 +407,7 @@ theorem applyRes_eq (ps : List PathV) (r : PathRes) : applyRes ps r = ps.map (st
 
 /-- `q'` is (up to the fields another path's validation writes) the result of a successful `validatePath`
 call against a path list with the key list `ks` -/
-def Good (pb dep : Bool) (ks : List (Str × Str × Nat × Bool × Bool)) (q' : PathV) : Prop :=
+def Good (pb dep : Bool) (ks : List (Str × Str × Nat × Bool × Bool × Nat)) (q' : PathV) : Prop :=
   ∃ all p r, all.map key = ks ∧ p ∈ all ∧ validatePath pb dep all p = .ok r ∧ core q' = core r.self
 
 theorem validatePaths_ok (pb dep : Bool) : ∀ (todo : List Str) (ps : List PathV) (us : List User)
@@ -511,7 +511,7 @@ theorem any_depc_of_keys : ∀ (a b : List PathV), a.map key = b.map key → a.a
   | _ :: _, [], h => by simp at h
   | x :: a, y :: b, h => by
     simp only [List.map_cons, List.cons.injEq] at h
-    have e : x.depc = y.depc := by have := h.1; simp only [key, Prod.mk.injEq] at this; exact this.2.2.2.2
+    have e : x.depc = y.depc := by have := h.1; simp only [key, Prod.mk.injEq] at this; exact this.2.2.2.2.1
     simp only [List.any_cons, e, any_depc_of_keys a b h.2]
 
 theorem names_of_keys {a b : List PathV} (h : a.map key = b.map key) : a.map (·.name) = b.map (·.name) := by
